@@ -120,6 +120,8 @@ def judge(ctx, pid, recs, verdict, count=True):
         case = {"mode": "call", "dir": r["dir"], "src": r["src"], "tmpl": r["tmpl"], "ctmpl": r["ctmpl"], "beh": [(b["kind"], b["b"]) for b in r["beh"]]}
         if cl.startswith("domain:"):
             ctx.notes["excluded_by_spec_domain_predicate"] = ctx.notes.get("excluded_by_spec_domain_predicate", 0) + 1
+        elif cl.startswith("known:") and pid == "C17" and cl == "known:freezes-alias-not-converted":
+            ctx.notes["c16_known_finding_met_on_the_way"] = ctx.notes.get("c16_known_finding_met_on_the_way", 0) + 1
         elif cl.startswith("known:"):
             ctx.violation("%s:%s" % (pid, cl[6:]), "known finding: %s" % cl[6:], case)
         elif cl:
@@ -147,7 +149,21 @@ def rand_state(rng, key):
         return d
     if r < 0.75:
         return rng.choice([" ", "\n", "\t "]) + d + rng.choice(["", " ", "\r\n"])
+    if r < 0.85 and BLANK_VALUES.get(key):
+        return BLANK_VALUES[key]      # what a blank SSC simfile holds under this name (a default only where the table says so)
     return rng.choice(["x", "1.000=2", "0.000=4=4,8=3=4", "yes", d + "0"])
+
+
+class _Blank(dict):
+    def get(self, key, default=None):
+        if not self:
+            from simfile.ssc import SSCSimfile, SSCChart
+            self.update({k: v for k, v in SSCChart.blank().items() if v})
+            self.update({k: v for k, v in SSCSimfile.blank().items() if v})
+        return dict.get(self, key, default)
+
+
+BLANK_VALUES = _Blank()
 
 
 def gen_ssc(rng, corp):
@@ -263,6 +279,8 @@ def run(ctx):
     rt = core.pmap(c16.c16_job, [(n + i, ctx.seed * 7000 + i, cv.corpus("sm"), True) for i in range(150 if ctx.quick else 3000)], chunk=50)
     recs += rt
     recs += probe_jobs(n + len(rt))
+    # round trip of SM sources that spell their stops FREEZES (with and without a STOPS key next to it): the alias key comes back
+    recs += [c16.freezes_probe(len(recs), with_back=True), c16.freezes_probe(len(recs) + 1, with_back=True, keep_stops=True)]
     verdict = cv.validate(ctx, recs)
     judge(ctx, "C17", recs, verdict)
     # whole sessions against System.tla: this check judges the rejections at the ssc_to_sm event
